@@ -100,6 +100,9 @@ func Run(job *kjob.Job, o RunOpts) (*RunResult, error) {
 		if err != nil || !r.TimedOut {
 			return r, err
 		}
+		if _, strict := r.StrictModeEntered(); strict {
+			return r, err // the trace explains the hang: more time will not help
+		}
 		Timeouts++
 		LastTimeoutDump = r.Stderr
 	}
@@ -227,4 +230,22 @@ func runOnce(job *kjob.Job, o RunOpts) (*RunResult, error) {
 		}
 	}
 	return res, nil
+}
+
+// StrictModeEntered reports a successful prctl(PR_SET_SECCOMP, SECCOMP_MODE_STRICT) or seccomp(SECCOMP_SET_MODE_STRICT)
+// seen by strace (the helper itself never makes such a call; a thread in strict mode is killed at its next system call
+// other than read, write, exit and sigreturn, which usually wedges the Go runtime).
+func (r *RunResult) StrictModeEntered() (SysCall, bool) {
+	for _, s := range r.Strace {
+		if strings.TrimSpace(s.Ret) != "0" {
+			continue
+		}
+		if s.Name == "prctl" && len(s.Args) >= 2 && strings.Contains(s.Args[0], "PR_SET_SECCOMP") && (strings.Contains(s.Args[1], "SECCOMP_MODE_STRICT") || s.Args[1] == "1" || s.Args[1] == "0x1") {
+			return s, true
+		}
+		if s.Name == "seccomp" && len(s.Args) >= 1 && (s.Args[0] == "0" || s.Args[0] == "0x0" || strings.Contains(s.Args[0], "SECCOMP_SET_MODE_STRICT")) {
+			return s, true
+		}
+	}
+	return SysCall{}, false
 }
